@@ -12,7 +12,7 @@ LEVEL = 'model_checking'
 CASE_TIMEOUT = 6000
 BATCH = 1
 RULE = ('one case = one (initial capacity, altitude mode, increments kind) configuration; inside it '
-        'ALL histories over {I0,I1,I2,I3,Irest,predict,set_pva A,set_pva B} on a 10-row table with at '
+        'ALL histories over {I0,I1,I2,I3,Irest,predict,set_pva A,set_pva B} (creeping-platform configurations: set_pva of a small change, set_pva(get_pva())) on a 10-row table with at '
         'most d deviations from the default I1 are explored breadth-first on live objects, states '
         'merged by a content hash of trajectory + internal buffers + capacity. Non-trivial/distinct = '
         'distinct reachable states (content hashes) summed over configurations. Unobserved histories (part = blind): '
@@ -32,12 +32,14 @@ def gen_cases(tier, seed):
     cases = []
     for cap in (1, 2, 3, 4, 6):
         for wa in (True, False):
-            for kind in ('normal', 'vertical', 'slow') + (('deadband', 'dupstamps') if cap in (2, 3) or tier == 'thorough' else ()):
+            for kind in ('normal', 'vertical', 'slow') + (('deadband', 'dupstamps', 'seam') if cap in (2, 3) or tier == 'thorough' else ()):
                 # quick: d <= 2 everywhere, d <= 3 where every call crosses or meets the capacity (cap 2);
                 # thorough: d <= 4 everywhere, d <= 5 for capacity 2
                 d_here = dev + 1 if cap == 2 else dev
+                # the creeping-platform configurations overwrite with SMALL changes: Se = 0.1 m / 2 cm / 0.1 mm/s,
+                # Sf = set_pva(get_pva()); the others with large ones
                 cases.append(dict(capacity=cap, wa=wa, kind=kind, init_vd=0.25, max_dev=d_here,
-                                  set_ops=['Sa', 'Sb']))
+                                  set_ops=['Se', 'Sf'] if kind == 'slow' else ['Sa', 'Sb']))
     # unobserved histories (engine E1b): no state is read between the calls, every first observation is tried
     # after every prefix.  quick: <= 1 deviation everywhere, <= 2 for capacity 2; thorough: <= 2 / <= 3
     for cap in (1, 2, 4):
@@ -45,7 +47,7 @@ def gen_cases(tier, seed):
             for kind in ('normal',) if tier == 'quick' else ('normal', 'deadband', 'dupstamps'):
                 d_blind = (2 if cap == 2 and kind == 'normal' else 1) + (0 if tier == 'quick' else 1)
                 cases.append(dict(part='blind', capacity=cap, wa=wa, kind=kind, init_vd=0.25, max_dev=d_blind,
-                                  set_ops=['Sa', 'Sb']))
+                                  set_ops=['Sa', 'Sb'] if cap != 4 else ['Sa', 'Se', 'Sf']))
     if tier == 'thorough':
         # capacity larger than the table (no growth at all) as the control configuration
         for wa in (True, False):
